@@ -451,6 +451,15 @@ class K3State:
     def repeat_call(self, I, args, kwargs, node):
         """getname('repeat')(key, iterable): tal.RepeatDict.__call__ contract:
         returns (iterator over list(iterable), its length); None iterates nothing"""
+        # contract of tal.RepeatDict.__call__ (verified: contracts/tal_repeat.py): the operand is
+        # materialised by list() first -- which raises for a non-iterable, nothing registered
+        if I.path.choose(2, 'repeat-operand') == 1:
+            exc = new_sym_exc(I, fresh_name('exc!repeat'))
+            exc.extra['origin'] = ('repeat',)
+            I.ghost['raised_exc'] = exc
+            I.ghost['repeat_failed'] = True
+            I.assume(z3.Not(Val.is_none(to_any(args[1]).t)))
+            raise Raised(exc)
         n = z3.Int(fresh_name('repeat_len'))
         I.assume(n >= 0)
         it = RepeatIter(n, fresh_name('items'))
@@ -728,6 +737,10 @@ def k3_prims():
         classes = [getattr(builtins, _c(x)) for x in a[1:]]
         return VBool(models.sym_exc_isinstance(xs[-1], classes))
 
+    def repeat_failed(I, a, k, n):
+        """the operand of tal:repeat could not be iterated (list() raised)"""
+        return VBool(bool(I.ghost.get('repeat_failed')))
+
     def exc_is_exception(I, a, k, n):
         exc = I.ghost.get('raised_exc')
         if exc is None:
@@ -988,7 +1001,7 @@ def k3_prims():
              scope_frame, template_pos, template_rpos, token_now, ext_count, ext_token, ext_last, ext_raised, ext_callee, ext_result, ext_arg, ext_out, ext_i18n, is_stream,
              is_rcontext, is_scope_copy, scope_arg_visible, attr_of, module_function, globals_visible,
              in_local, translate_arg, translate_result, normalize, i18n0,
-             holes_here, i18n_now, i18n_at, global_now, handler_calls, handler_configured,
+             holes_here, repeat_failed, i18n_now, i18n_at, global_now, handler_calls, handler_configured,
              translate_calls, quote_calls, errorinfo_of, token_at_eval, token_pos)}
 
 
